@@ -24,7 +24,9 @@ use crate::{
 
 fn snapshot(state: &State<TspP>, n: usize) -> Option<Vec<Vec<f64>>> {
     let pm = state.try_borrow::<PheromoneMatrix>().ok()?;
-    Some((0..n).map(|i| pm[i].to_vec()).collect())
+    // a matrix of another dimension than the instance's (rows of the wrong length, or too few of them) has no snapshot
+    let rows: Vec<Vec<f64>> = crate::engine::catch(|| (0..n).map(|i| pm[i].to_vec()).collect()).ok()?;
+    rows.iter().all(|r| r.len() == n).then_some(rows)
 }
 
 #[derive(Default)]
@@ -67,7 +69,12 @@ impl Audit<TspP> for A19 {
         }
         let n = self.n;
         match (ev.name, ev.phase) {
-            ("AcoGeneration", Phase::Before) => self.before_gen = snapshot(state, n),
+            ("AcoGeneration", Phase::Before) => {
+                self.before_gen = snapshot(state, n);
+                if self.before_gen.is_none() && state.contains::<PheromoneMatrix>() {
+                    return self.fail("trail matrix is not an n x n matrix for the instance being solved", format!("n = {n}"));
+                }
+            }
             ("AcoGeneration", Phase::After) if ev.ok => {
                 self.generations += 1;
                 let Some(pm) = self.before_gen.take() else { return };
